@@ -50,3 +50,63 @@ BAD_FLAGS = ['-ffast-math', '-Ofast', '-ffinite-math-only', '-fno-signed-zeros',
              '-fno-threadsafe-statics', '-freciprocal-math', '-fno-trapping-math-unsafe',
              '-fno-rtti-unsafe']
 E6_FLAGS = ['-fno-threadsafe-statics']
+
+# ---------------------------------------------------------------- R-EXC
+# handlers that deliberately swallow (X1)
+AUDITED_HANDLERS = {
+    NS + 'Utility::fractionalyear': 'falls back from number parsing to date parsing; the second parser throws GeographicErr',
+    NS + 'Geoid::CacheClear': 'swallows by design: releasing the cache must not fail',
+    NS + 'Geoid::CacheArea': 'bad_alloc handler releases the partial cache and re-raises as GeographicErr',
+}
+# functions whose job is to validate parameters: NaN must be *rejected* there (X5), not tolerated (X4)
+VALIDATING_SETTERS = {
+    NS + 'PolarStereographic::SetScale': 'parameter setter: validates like a constructor',
+    NS + 'LambertConformalConic::SetScale': 'parameter setter: validates like a constructor',
+    NS + 'AlbersEqualArea::SetScale': 'parameter setter: validates like a constructor',
+    NS + 'LambertConformalConic::Init': 'constructor helper',
+    NS + 'AlbersEqualArea::Init': 'constructor helper',
+    NS + 'NormalGravity::Initialize': 'constructor helper',
+    NS + 'EllipticFunction::Reset': 'parameter setter',
+    NS + 'LocalCartesian::Reset': 'parameter setter',
+    NS + 'CassiniSoldner::Reset': 'parameter setter',
+    NS + 'SphericalEngine::coeff::readcoeffs': 'reads ints from a file; no floating argument',
+}
+# library functions through which a NaN argument does not reach the result (X4 taint stops)
+NAN_FILTERS = set()
+
+# Argument validators whose failure branch is numerically unreachable from library-internal callers.
+# Their throws are NOT propagated through the call graph (they still count inside the function itself
+# and for its direct API users).  A-ELLIPTIC-ARGS: every internal construction passes k2 = -ep2 or
+# -k2 with k2 >= 0 (<= 1), alpha2 likewise; a numerical fact that no rule here decides.
+NOTHROW_WHEN_INTERNAL = {
+    NS + 'EllipticFunction::Reset': 'A-ELLIPTIC-ARGS',
+    NS + 'EllipticFunction::EllipticFunction': 'A-ELLIPTIC-ARGS',
+}
+
+# loops without a counter, each with its termination argument (X6)
+# function -> (number of such loops in one body, termination argument)
+AUDITED_LOOPS = {
+    NS + 'EllipticFunction::RF': (1, 'AGM iteration (Carlson 2.36): |xn-yn| shrinks quadratically; for NaN/inf the test '
+                                     '"fabs(xn-yn) > tol*xn" is false'),
+    NS + 'EllipticFunction::RG': (1, 'AGM iteration (Carlson 2.39): as RF(x,y); NaN/inf make the test false'),
+    NS + 'AlbersEqualArea::DDatanhee1': (1, 'series in e2^l with |e2| < 1 (caller selects it only for small e2); exit test '
+                                            'is written !(|ds| > ...) so NaN exits'),
+    NS + 'AlbersEqualArea::DDatanhee2': (1, 'series in ((1-x),(1-y))^m, geometric decay; exit test is written !(|ds| > ...) '
+                                            'so NaN exits'),
+    NS + 'DMS::Decode': (1, 'p advances to pb = find_first_of(signs, pa+1) > p or to end on every iteration'),
+    NS + 'GeoCoords::Reset': (1, 'pos0 = find_first_of(spaces, pos1) with pos1 >= pos0 a non-space: strictly increasing or npos'),
+    NS + 'Intersect::AllInt0': (1, 'sa grows by one conjugate-point spacing (> 0) per trip until the distance exceeds '
+                                   'maxdistx; NaN makes the test false'),
+}
+
+# parameter setters validated like constructors (X5)
+X5_SETTERS = {NS + 'PolarStereographic::SetScale', NS + 'LambertConformalConic::SetScale',
+              NS + 'AlbersEqualArea::SetScale'}
+# classes whose constructors take positions / values, not ellipsoid or projection parameters
+X5_EXEMPT_CLASSES = {NS + 'GeodesicLine': 'the documented exception in the property (line constructors do not validate)',
+                     NS + 'GeodesicLineExact': 'as GeodesicLine',
+                     NS + 'SphericalHarmonic': 'a is a reference radius that only scales the sum, not an ellipsoid parameter; no validation is documented',
+                     NS + 'SphericalHarmonic1': 'as SphericalHarmonic',
+                     NS + 'SphericalHarmonic2': 'as SphericalHarmonic'}
+# validation helpers that the witness interpreter follows although they are large
+X5_FOLLOW = {NS + 'LambertConformalConic::Init', NS + 'AlbersEqualArea::Init', NS + 'NormalGravity::Initialize'}
